@@ -9,11 +9,11 @@
      positive frame size a call stack on which no guard has fired has at most
      max_stack/frame + R + 1 frames and uses at most max_stack + (R+1)*biggest-frame
      bytes, and an input asking for deeper nesting makes a guard fire within that
-     depth (R+1 = longest run of unguarded decoders; the graphs of the BER and UPER
-     decoders of the check's modules satisfy the hypothesis: Examples in DepthProofs.v);
-   - the hypothesis fails for the OER decoder of a CHOICE-only recursion
-     (CHOICE_decode_oer has no check) and for every recursive type on the XER path
-     (no XER decoder has one): call stacks of every length are admissible (refuted);
+     depth (R+1 = longest run of unguarded decoders);
+   - the hypothesis holds for the BER, UPER, OER and XER graphs of the check's
+     modules (every constructed decoder of every syntax evaluates the check), so
+     the bound holds for every recursive type in every syntax (all_syntaxes);
+     an unguarded cycle would admit call stacks of every length (general theorem);
    - the value the reference BER decoder returns is never larger than the number
      of octets it consumed (every type of the algebra, every input);
    - for OER and UPER that is false without a count guard: SEQUENCE OF NULL. *)
@@ -56,19 +56,22 @@ Theorem C15_unguarded_cycle_unbounded : forall (g : cgraph) (pre cyc : list node
 Proof. exact unguarded_cycle_unbounded. Qed.
 Print Assumptions C15_unguarded_cycle_unbounded.
 
-Theorem C15_guarded_recursion_oer_choice_refuted :
-  exists (g : cgraph) (root : node), (g = cg_oer \/ g = cg_xer) /\
-    forall (fr : node -> Z) (max : Z) (k : nat),
-      exists c, hd O c = root /\ is_chain g c = true /\ admissible g fr max 0 c = true /\ (k <= length c)%nat.
-Proof. exact guarded_recursion_refuted. Qed.
-Print Assumptions C15_guarded_recursion_oer_choice_refuted.
+Theorem C15_guarded_recursion_all_syntaxes : forall (g : cgraph) (fr : node -> Z) (f max : Z),
+  In g [cg_ber; cg_uper; cg_oer; cg_xer] ->
+  0 < f -> (forall v, f <= fr v) -> 0 <= max ->
+  forall c, is_chain g c = true -> admissible g fr max 0 c = true ->
+  Z.of_nat (length c) <= max / f + 1.
+Proof. exact guarded_recursion_all_syntaxes. Qed.
+Print Assumptions C15_guarded_recursion_all_syntaxes.
 
-Theorem C15_guarded_recursion_xer_refuted :
-  forall root, In root [0; 1; 2; 3; 4; 5; 7]%nat ->
-    forall (fr : node -> Z) (max : Z) (k : nat),
-      exists c, hd O c = root /\ is_chain cg_xer c = true /\ admissible cg_xer fr max 0 c = true /\ (k <= length c)%nat.
-Proof. exact guarded_recursion_xer_refuted. Qed.
-Print Assumptions C15_guarded_recursion_xer_refuted.
+Theorem C15_deep_nesting_fails_all_syntaxes : forall (g : cgraph) (fr : node -> Z) (f max : Z),
+  In g [cg_ber; cg_uper; cg_oer; cg_xer] ->
+  0 < f -> (forall v, f <= fr v) -> 0 <= max ->
+  forall path, is_chain g path = true ->
+  max / f + 1 < Z.of_nat (length path) ->
+  exists k, run_path g fr max 0 0 path = GuardFired k /\ Z.of_nat k <= max / f + 2.
+Proof. exact deep_nesting_fails_all_syntaxes. Qed.
+Print Assumptions C15_deep_nesting_fails_all_syntaxes.
 
 Theorem C15_heap_linear_ber_partial : forall t bs v rest,
   ber_dec t bs = Some (v, rest) -> vsize v + zlen rest <= zlen bs.
